@@ -652,13 +652,6 @@ def simplify_boolean_expressions(source: str) -> str:
             left = core.literal_value(node.left)
             right = core.literal_value(comparator)
         except ValueError:
-            if (
-                isinstance(operator, ast.Eq)
-                and core.unparse(node.left) == core.unparse(comparator)
-                and not core.has_side_effect(node.left)  # f() == f() must still call f twice
-            ):
-                yield node, ast.Constant(value=True, kind=None)
-
             continue
 
         try:
